@@ -793,7 +793,7 @@ func (x *aprRun) exec(op string) bool {
 				// a callback was not invoked although the process has been running for that long (kept time of the
 				// reference goroutine, not the wall clock: a stall that hit the whole process hit the callback
 				// goroutines as well): reported by the monitor; do not wait that long again
-				atomic.StoreInt64(&aprPresentBound, int64(200*time.Millisecond))
+				atomic.StoreInt64(&aprPresentBound, int64(30*time.Millisecond))
 				break
 			}
 			time.Sleep(50 * time.Microsecond)
@@ -2142,6 +2142,12 @@ func TestApproval(t *testing.T) {
 	nAb := 0
 	for _, v := range abandoned {
 		nAb += v
+	}
+	if r.MismatchN > 0 || len(r.SpecFailKeys()) > 0 {
+		// the run already disagrees with the model or the statement: what the generator reached says nothing (a
+		// change that breaks every history at its first write starves every floor) - the disagreement is the result
+		r.Info["floors"] = "not evaluated: the run has mismatches / spec failures"
+		return
 	}
 	jp50, jp99, jmax, jn := h.JitterStats()
 	r.Info["jitter_witness"] = fmt.Sprintf("reference goroutine with a 2 ms ticker: %d wake-ups, lateness median %v, 99th percentile %v, max %v", jn, jp50, jp99, jmax)
